@@ -132,7 +132,8 @@ def gen_expr(draw, G, space, rank, env_vars, feat, depth, selfcall=None):
     else:
         kind = draw(st.sampled_from(
             ["lit", "var", "ref", "attrref", "call", "call", "call", "attrcall", "bin", "bin",
-             "ifgt", "sum", "lam", "bi", "item", "objcall", "fail"]))
+             "ifgt", "sum", "lam", "bi", "item", "objcall", "fail"] + (["fail", "fail", "call", "call"]
+                                                                        if feat.fail else [])))
     if kind == "var" and env_vars:
         return ["var", draw(st.sampled_from(env_vars))]
     if kind == "ref":
@@ -197,8 +198,11 @@ def gen_expr(draw, G, space, rank, env_vars, feat, depth, selfcall=None):
         b = gen_expr(draw, G, space, rank, env_vars, feat, depth - 1)
         return ["call", ["name", f], [a, b], "()"]
     if kind == "fail" and feat.fail:
-        return ["bin", "+", ["fail", "f%d" % draw(st.integers(0, 2))],
-                gen_expr(draw, G, space, rank, env_vars, feat, depth - 1)]
+        tag = "f%d" % draw(st.integers(0, 2))
+        inner = gen_expr(draw, G, space, rank, env_vars, feat, depth - 1)
+        if draw(st.integers(0, 2)) == 0:
+            return ["failnone", tag, inner]
+        return ["bin", "+", ["fail", tag], inner]
     return ["lit", draw(small_int())]
 
 
@@ -709,3 +713,77 @@ def apply_edit_to_picture(G, op, allow_dangling=False):
         G.__dict__.clear()
         G.__dict__.update(saved)
     return ok
+
+
+# ----------------------------------------------------------------------------
+# DAG-shaped models with one fault point per element (C05 / C08 / C16 / C17)
+
+def gen_dag_model(draw, ncells=(4, 7), items=True, uncached=True, none_points=False):
+    """Build operations for a model whose cells form a DAG of calls.
+
+    Cells d0..d<n-1>; d<k> calls 1-3 cells of lower index (by name, by attribute path, or through an
+    ItemSpace), and starts with a fault point whose tag is 'F<k>_' + str(x) (one tag per element).
+    Returns (ops, G, info) with info = {"cells": [(path, name, nparams)], "top": (path, name, nparams)}.
+    """
+    G = fresh_model()
+    ops = []
+
+    def emit(op):
+        ops.append(op)
+        apply_ref(G, op)
+
+    emit(["new_space", [], "S0", None, None])
+    paths = [["S0"]]
+    if draw(st.booleans()):
+        emit(["new_space", ["S0"], "Ch0", None, None])
+        paths.append(["S0", "Ch0"])
+    ppath = None
+    if items and draw(st.booleans()):
+        emit(["new_space", [], "P", None, None])
+        emit(["set_formula", ["P"], {"params": [["p", None]], "ret": None, "form": "lambda"}])
+        ppath = ["P"]
+        paths.append(ppath)
+    emit(["set_ref", [], "g0", ["v", draw(small_int())], None])
+    emit(["set_ref", ["S0"], "r0", ["v", draw(small_int())], None])
+    n = draw(st.integers(*ncells))
+    cells = []
+    for k in range(n):
+        p = draw(st.sampled_from(paths)) if k < n - 1 else ["S0"]
+        nparams = draw(st.sampled_from([0, 1, 1, 1]))
+        params = [["x", None]][:nparams]
+        xs = ["x"] if nparams else []
+        terms = [["failx", "F%d_" % k, "x" if nparams else None]]
+        lower = cells[:]
+        ncall = draw(st.integers(1, 3)) if lower else 0
+        for _ in range(ncall):
+            q, cn, cnp = draw(st.sampled_from(lower))
+            args = []
+            if cnp:
+                a = draw(st.integers(0, 3))
+                if xs and a <= 1:
+                    args = [["mod", ["bin", "+", ["var", "x"], ["lit", a]], 3]]
+                else:
+                    args = [["lit", draw(st.integers(0, 2))]]
+            if q == p and draw(st.integers(0, 2)) != 0:
+                tgt = ["name", cn]
+            elif q == ppath:
+                item = ["call", ["attr", ["name", "_model"], "P"], [["lit", draw(st.integers(0, 1))]], "()"]
+                tgt = ["attr", item, cn]
+            else:
+                e = ["name", "_model"]
+                for part in q:
+                    e = ["attr", e, part]
+                tgt = ["attr", e, cn]
+            terms.append(["call", tgt, args, "()"])
+        terms.append(draw(st.sampled_from([["lit", draw(small_int())], ["name", "g0"]])))
+        body = terms[0]
+        for t in terms[1:]:
+            body = ["bin", "+", body, t]
+        if none_points and draw(st.integers(0, 4)) == 0:
+            body = ["failnone", "N%d" % k, body]
+        c = {"name": "d%d" % k, "params": params, "expr": body,
+             "cached": not (uncached and draw(st.integers(0, 4)) == 0),
+             "allow_none": None, "form": draw(st.sampled_from(["lambda", "def"])), "tick": True}
+        emit(["new_cells", p, c])
+        cells.append((p, c["name"], nparams))
+    return ops, G, {"cells": cells, "top": cells[-1]}
